@@ -128,6 +128,14 @@ class MySQLQueryBuilder(QueryBuilder):
 
         self._ignore_duplicates = True
 
+    def replace_table(self, current_table: Optional[Table], new_table: Optional[Table]) -> "MySQLQueryBuilder":
+        newone = super().replace_table(current_table, new_table)
+        newone._duplicate_updates = [
+            (field.replace_table(current_table, new_table), value.replace_table(current_table, new_table))
+            for field, value in self._duplicate_updates
+        ]
+        return newone
+
     def get_sql(self, **kwargs: Any) -> str:
         self._set_kwargs_defaults(kwargs)
         querystring = super(MySQLQueryBuilder, self).get_sql(**kwargs)
@@ -659,6 +667,28 @@ class PostgreSQLQueryBuilder(QueryBuilder):
             returning=",".join(term.get_sql(with_alias=True, **kwargs) for term in self._returns),
         )
 
+    def replace_table(self, current_table: Optional[Table], new_table: Optional[Table]) -> "PostgreSQLQueryBuilder":
+        newone = super().replace_table(current_table, new_table)
+        newone._returns = [term.replace_table(current_table, new_table) for term in self._returns]
+        newone._distinct_on = [term.replace_table(current_table, new_table) for term in self._distinct_on]
+        newone._on_conflict_fields = [
+            field.replace_table(current_table, new_table) for field in self._on_conflict_fields
+        ]
+        newone._on_conflict_do_updates = [
+            (
+                field.replace_table(current_table, new_table),
+                value.replace_table(current_table, new_table) if value is not None else None,
+            )
+            for field, value in self._on_conflict_do_updates
+        ]
+        if self._on_conflict_wheres:
+            newone._on_conflict_wheres = self._on_conflict_wheres.replace_table(current_table, new_table)
+        if self._on_conflict_do_update_wheres:
+            newone._on_conflict_do_update_wheres = self._on_conflict_do_update_wheres.replace_table(
+                current_table, new_table
+            )
+        return newone
+
     def get_sql(self, with_alias: bool = False, subquery: bool = False, **kwargs: Any) -> str:
         self._set_kwargs_defaults(kwargs)
 
@@ -894,6 +924,7 @@ class ClickHouseQueryBuilder(QueryBuilder):
 
     def replace_table(self, current_table: Optional[Table], new_table: Optional[Table]) -> "ClickHouseQueryBuilder":
         newone = super().replace_table(current_table, new_table)
+        newone._distinct_on = [term.replace_table(current_table, new_table) for term in self._distinct_on]
         if self._limit_by:
             newone._limit_by = (
                 self._limit_by[0],
